@@ -17,7 +17,13 @@ func init() { register("C06", func() Property { return c06{} }) }
 type c06 struct{}
 
 func (c06) ID() string { return "C06" }
-func (c06) Run(e *Env) { runConservation(e, "C06") }
+func (c06) Run(e *Env) {
+	if e.Chance(1, 5) {
+		c06Direct(e) // the BackendHandler alone, with cancellable dispatch contexts
+		return
+	}
+	runConservation(e, "C06")
+}
 
 // coLocation remembers, across the runs of one worker process, whether two series were reported by
 // the same shard for a given shard count. Routing that depends on anything but identity and count
